@@ -127,6 +127,7 @@ class Worker:
         self.ae.network_timeout = 10
         self.mode = "absent"
         self.bound = False
+        self.current = None
         self.srv = self.ae.start_server(
             ("127.0.0.1", 0),
             block=False,
@@ -176,12 +177,19 @@ class Worker:
         self.ae.maximum_associations = m
         if mode == "absent":
             if self.bound:
-                self.srv.unbind(evt.EVT_USER_ID, self.on_user_id)
+                self.srv.unbind(evt.EVT_USER_ID, self.current)
                 self.bound = False
         else:
-            if not self.bound:
-                self.srv.bind(evt.EVT_USER_ID, self.on_user_id)
-                self.bound = True
+            # a fresh handler object every time; when one is already bound it is swapped the way handlers are swapped
+            # in a running server: bind the replacement, then unbind the stale one (which is no longer bound - the
+            # unbind must not disturb the replacement)
+            fresh = (lambda w: (lambda event: w.on_user_id(event)))(self)
+            stale = self.current if self.bound else None
+            self.srv.bind(evt.EVT_USER_ID, fresh)
+            if stale is not None:
+                self.srv.unbind(evt.EVT_USER_ID, stale)
+            self.current = fresh
+            self.bound = True
         self.mode = mode
 
     def run(self, case):
